@@ -488,6 +488,28 @@ func (w *walker) stmt(s ast.Stmt, locks []string, inLit bool) []string {
 			}
 			return append(locks, l)
 		}
+		// `if mu.TryLock() { ... mu.Unlock() }`: the mutex is held inside the body (which releases it itself)
+		if c, ok := x.Cond.(*ast.CallExpr); ok && x.Init == nil {
+			if se, ok := c.Fun.(*ast.SelectorExpr); ok && se.Sel.Name == "TryLock" && len(c.Args) == 0 {
+				l := exprStr(w.p, se.X)
+				if w.qual != nil {
+					w.qual[l] = w.qualLock(se.X)
+				}
+				if w.acqs != nil {
+					*w.acqs = append(*w.acqs, acqRow{fn: w.fn, lock: w.qual[l], held: w.qualHeld(locks)})
+				}
+				end := w.block(x.Body.List, append(cloneLocks(locks), l), inLit)
+				for _, k := range end {
+					if k == l {
+						*w.leaks = append(*w.leaks, leakRow{w.fn, w.p.fset.Position(x.Body.Rbrace).Line, w.qual[l]})
+					}
+				}
+				if x.Else != nil {
+					w.stmt(x.Else, cloneLocks(locks), inLit)
+				}
+				return locks
+			}
+		}
 		if x.Init != nil {
 			locks = w.stmt(x.Init, locks, inLit)
 		}
